@@ -147,7 +147,21 @@ ADDED.update({
     "w11_C17": "occupancy 0.00 on a fifth of the atoms of a complete fragment",
     "w11_C18": "constant-level TLC invariants that are FALSE ('The invariant of X is equal to FALSE') read as a verdict, not as a machinery failure",
 })
-ROUND = {"C": 1, "w2": 2, "w3": 3, "w4": 4, "w5": 5, "w6": 6, "w7": 7, "w8": 8, "w9": 9, "w10": 10, "w11": 11}
+ADDED.update({
+    "w12_C01": "a titrate-only list naming negative residue numbers (<= -10) in the run-level census",
+    "w12_C03": "the custom parameter file of the histories also changes a threshold of the coupling analysis",
+    "w12_C04": "a disulfide whose S-S vector lies along x, under all 24 rotations",
+    "w12_C05": "a part with insertion-coded residues of different types next to a part with alternate locations",
+    "w12_C09": "sites whose pKa lies far outside the pH range (20, 31, -3): axioms on recorded curves",
+    "w12_C10": "ConfChargeRows: the file output.write_pka writes for a single conformation shows that conformation's charge curve",
+    "w12_C12": "ensembles in which one model only is truncated (first / inner / last residue, OXT, side chains)",
+    "w12_C13": "blank chain identifier in a file that carries an identification code in columns 73-76",
+    "w12_C14": "a titrate-only list together with a chain selection that selects everything (blank chain: ' ' vs '_')",
+    "w12_C15": "the pKa window of the coupling analysis given explicitly in a parameter file",
+    "w12_C16": "C-terminal oxygens under the names OT1 / OT2 on the whole dimer",
+    "w12_C17": "complements checked in every conformation; insertion-coded residues + an alt-loc elsewhere",
+})
+ROUND = {"C": 1, "w2": 2, "w3": 3, "w4": 4, "w5": 5, "w6": 6, "w7": 7, "w8": 8, "w9": 9, "w10": 10, "w11": 11, "w12": 12}
 
 
 def write_design():
